@@ -63,6 +63,15 @@ def handleGraph : Sexp → Option Sexp
     some (progIds (singleCycle (← graph? n es) (← exprs? ie) (← prim.toBool?) (← base.toNat?)))
   | .list [.atom "path", n, es, ie, prim, base] => do
     some (progIds (singlePath (← graph? n es) (← exprs? ie) (← prim.toBool?) (← base.toNat?)))
+  | .list [.atom "cycle_frame", h, w, prim, path] => do
+    let H ← h.toNat?; let W ← w.toNat?
+    let pr ← prim.toBool?; let pa ← path.toBool?
+    let f := Frame.fresh 0 H W
+    let r : Py (Prog × List Expr) := do
+      let (es, g) ← fromGridFrame f
+      if pa then singlePath g es pr (Frame.numVars H W)
+      else singleCycle g es pr (Frame.numVars H W)
+    some (progIds r)
   | .list [.atom "grid", h, w] => do
     let g := Graph.grid (← h.toNat?) (← w.toNat?)
     some (.list [.ofNat g.n, edgesS g.edges])
